@@ -253,6 +253,14 @@ func RunFSWith(fsys filesystem.Filesystem, strat int, setup func(db.Database) er
 		}
 	}()
 	d := filesystem.NewFilesystemDatabase(fsys)
+	if setup != nil {
+		// API callers may register their profiles before or after opening; the harness does both (the second call
+		// replaces equal by equal), so that neither an Open that checks references nor one that starts afresh trips it
+		if err := setup(d); err != nil {
+			res.Stage, res.Err = "setup", err.Error()
+			return
+		}
+	}
 	if err := d.Open(); err != nil {
 		res.Stage, res.Err = "open", err.Error()
 		return
@@ -273,11 +281,13 @@ func RunFSWith(fsys filesystem.Filesystem, strat int, setup func(db.Database) er
 		return
 	}
 	for _, c := range plan {
-		k := "create"
-		if c.Change == db.ChangeReplace {
-			k = "replace"
+		// only what is to be created or replaced is "planned"; a list may well mention entities it leaves alone (ChangeNone)
+		switch c.Change {
+		case db.ChangeCreate:
+			res.Changes = append(res.Changes, ChangeRec{c.Alias, "create"})
+		case db.ChangeReplace:
+			res.Changes = append(res.Changes, ChangeRec{c.Alias, "replace"})
 		}
-		res.Changes = append(res.Changes, ChangeRec{c.Alias, k})
 	}
 	n, err := db.BulkUpdate(d, plan)
 	res.Generated = n
